@@ -580,6 +580,11 @@ def apply(func, args, kwargs=None):
         return Rat.const(1)
     if func.startswith("cmp_") and len(args) == 2:
         a, b = args
+        sa, sb = a.as_atom(), b.as_atom()
+        if sa is not None and sb is not None and sa.func.startswith("str:") and sb.func.startswith("str:") \
+                and func in ("cmp_eq", "cmp_ne"):
+            same = sa.func == sb.func
+            return Rat.const(1 if same == (func == "cmp_eq") else 0)
         if func in ("cmp_eq", "cmp_ne") and not (b.is_zero() and _canon_sign(a)[1] == 1):
             try:
                 diff, _ = _canon_sign(a - b)
